@@ -34,11 +34,11 @@ extern "C" __attribute__((used, visibility("default"))) const char *
 __asan_default_options() {
   return "exitcode=77:detect_leaks=0:allocator_may_return_null=1:abort_on_error=0:"
          "handle_abort=0:detect_stack_use_after_return=0:"
-         "symbolize=1:malloc_context_size=8:max_malloc_fill_size=4096";
+         "symbolize=0:malloc_context_size=8:max_malloc_fill_size=4096";
 }
 extern "C" __attribute__((used, visibility("default"))) const char *
 __ubsan_default_options() {
-  return "halt_on_error=1:print_stacktrace=1:exitcode=76";
+  return "halt_on_error=1:print_stacktrace=1:exitcode=76:symbolize=0";
 }
 
 namespace {
